@@ -50,7 +50,8 @@ def main():
             e = dict(os.environ, FAST_TICC_REPO=wt, TICCMON_EVIDENCE_DIR=wt + "/.ev", TICCMON_REPLAY_DIR=wt + "/.rp")
             r = sh(["/verif/check", c, "--tier", "quick"], env=e, timeout=3000)
             wit = [l.strip()[:300] for l in r.stdout.splitlines() if "witness" in l or "INCONCLUSIVE" in l][:2]
-            res[c] = {"rc": r.returncode, "witness": wit}
+            viol = any(l.startswith("VIOLATION property=") for l in r.stdout.splitlines())
+            res[c] = {"rc": r.returncode if (r.returncode != 1 or viol) else 3, "witness": wit}   # rc 1 without a VIOLATION line = harness crash
         result["checks"] = res
         result["caught_by"] = [c for c, v in res.items() if v["rc"] == 1]
         ok = result.get("demo_clean_rc") == 0 and result.get("demo_patched_rc") not in (0, None) and (skip_suite or "31 passed" in result.get("suite", ""))
